@@ -109,3 +109,10 @@ impl Drop for ConnectionIdInner {
         self.ids.release(self.id);
     }
 }
+
+#[cfg(feature = "verif-hooks")]
+impl ConnectionId {
+    pub(crate) fn verif_raw(&self) -> usize {
+        self.0.id()
+    }
+}
